@@ -176,6 +176,10 @@ class Ready:
                 if not ok:
                     rendered = tstr(d)
                     for (vn, kind, rx, reason) in EXCEPTIONS:
+                        if vn == 'BinaryEntropy' and v.name == 'BinaryEntropy' and kind == ev.kind:
+                            # the exception only holds while the NaN reset post-dominates the logarithms
+                            if not any(x[0] == 'phi' and x[1][0] == 'op' and x[1][1] == 'is_nan' for x in subterms(self.m.last_ret)):
+                                continue
                         if vn == v.name and kind == ev.kind and re.search(rx, rendered):
                             ok = True
                             why = 'reviewed exception: ' + reason
